@@ -92,6 +92,20 @@ def cases(tier: str, rng: random.Random) -> List[Case]:
         out += [std_case(("SetV", STRIP, [], [], None), ("VSet", xs), m, tag="a:merge") for m in ("sync", "async")]
         kvs = [P(x, G.I(i)) for i, x in enumerate(xs)]
         out += [std_case(("MapV", STRIP, INT, [], [], None), ("VDict", kvs), m, tag="a:merge") for m in ("sync", "async")]
+    # (a3) elements that are == but of different types (1 / True / 1.0 / Decimal(1), 0 / False / 0.0):
+    # every element is validated on its own, whatever was seen before it
+    alike = [G.I(1), G.TRUE, G.F1, G.D1, G.I(0), G.FALSE, G.F0]
+    kids = [INT, ("Scalar", ("KFloat",), None, [], [], []), ("Scalar", ("KBool",), None, [], [], []), INT_INC,
+            ("Scalar", ("KDecimal",), Some(("CoDecimal",)), [], [], [])]
+    seqs = list(itertools.product(alike, repeat=2)) + rng.sample(list(itertools.product(alike, repeat=3)), 40 if tier == "quick" else 343)
+    for child in kids:
+        for xs in seqs:
+            for m in ("sync", "async"):
+                out.append(std_case(("ListV", child, [], [], None), ("VList", list(xs)), m, tag="a:alike"))
+            out.append(std_case(("UTupleV", child, [], [], Some(("CoTupleOrList",))), ("VTuple", list(xs)), rng.choice(["sync", "async"]), tag="a:alike"))
+            if len(xs) == 2:
+                out.append(std_case(("NTupleV", [child, child], None, Some(("CoTupleOrList",))), ("VTuple", list(xs)), rng.choice(["sync", "async"]), tag="a:alike"))
+                out.append(std_case(("MapV", child, child, [], [], None), ("VDict", [P(xs[0], xs[1])]), rng.choice(["sync", "async"]), tag="a:alike"))
     # container-level failures with logging children
     for v in [("ListV", INT_INC, [("PMinItems", 3)], [], None),
               ("SetV", INT_INC_T, [("PMaxItems", 0)], [], None),
